@@ -4,6 +4,7 @@ import (
 	"bytes"
 	"fmt"
 	"math/big"
+	"strings"
 	"sync"
 
 	cs "github.com/tendermint/tendermint/consensus"
@@ -379,11 +380,67 @@ func (m *monitor) afterStep() {
 	for _, n := range s.nodes {
 		m.judgeSignatures(n)
 	}
+	for _, n := range s.nodes {
+		m.judgeRejections(n)
+	}
 	if e.Checking("C05") {
 		for _, n := range s.nodes {
 			m.stepC05(n)
 		}
 	}
+}
+
+// judgeRejections (C06, "a block built by a correct proposer ... always passes this check"): a
+// node whose prevote step declares the complete proposal block of round (h, r) invalid is wrong
+// when that proposal was signed by a correct validator - nobody else can produce a proposal that
+// SetProposal accepts for that round, and the parts are bound to it by their Merkle proofs.
+func (m *monitor) judgeRejections(n *simNode) {
+	n.mu.Lock()
+	rjs := n.rejects
+	n.rejects = nil
+	n.mu.Unlock()
+	e := m.s.env
+	for _, rj := range rjs {
+		e.Count("probe.proposal_block_rejected")
+		if !e.Checking("C06") {
+			continue
+		}
+		if n.bstore != nil && n.bstore.Base() > m.s.genDoc.InitialHeight && strings.Contains(rj.err, "don't have") {
+			// the simulated application prunes far below the evidence age (retain:1..3): a node
+			// that cannot verify evidence against history it was told to delete is the
+			// application's doing (ABCI: retain_height must respect the evidence age)
+			e.Count("probe.proposal_rejected_for_pruned_history")
+			continue
+		}
+		for _, p := range m.s.nodes {
+			for _, rec := range m.signs[p.idx] {
+				if rec.typ == 32 && rec.h == rj.h && rec.r == rj.r && !rec.dup {
+					e.Count("probe.correct_proposal_rejected")
+					sig := "correct-proposal-rejected:" + errClass(rj.err)
+					if p.evReplayed && strings.Contains(rj.err, "evidence was already committed") {
+						// known finding (consequence of C11 committed-still-pending-after-apply-crash)
+						sig = "correct-proposal-rejected-committed-evidence-after-apply-crash"
+					}
+					e.Fail("C06", sig, "node %d refused (prevoted nil for) the block that the correct validator %d proposed at height %d round %d: %s", n.idx, p.idx, rj.h, rj.r, rj.err)
+				}
+			}
+		}
+	}
+}
+
+// errClass keeps the words of a validation error up to the first digit or colon.
+func errClass(s string) string {
+	out := []rune{}
+	for _, c := range s {
+		if (c >= '0' && c <= '9') || c == ':' || c == '{' || len(out) >= 40 {
+			break
+		}
+		if c == ' ' {
+			c = '-'
+		}
+		out = append(out, c)
+	}
+	return strings.Trim(string(out), "-.")
 }
 
 // checkReplica: cross-replica determinism (C06). After the same height every correct node
